@@ -272,6 +272,48 @@ async fn gate_case(rep: &mut Report, which: &str) {
   let _ = tokio::time::timeout(Duration::from_secs(12), ctx.term()).await;
 }
 
+/// A REQ whose reply is late: send ok, recv times out, then send again. The operations that
+/// succeed must still alternate, so the second send has to be refused until a recv succeeded.
+async fn late_reply_case(rep: &mut Report) {
+  let ctx = util::new_ctx();
+  let req = ctx.socket(SocketType::Req).unwrap();
+  util::set_i32(&req, opt::RCVTIMEO, 100).await;
+  util::set_i32(&req, opt::SNDTIMEO, 500).await;
+  let r = ctx.socket(SocketType::Rep).unwrap();
+  util::set_i32(&r, opt::RCVTIMEO, 2000).await;
+  let ep = util::bind_fresh(&r, Transport::Tcp).await.unwrap();
+  req.connect(&ep).await.unwrap();
+  tokio::time::sleep(Duration::from_millis(250)).await;
+  // the REP answers only after 400 ms
+  let server = tokio::spawn(async move {
+    while let Ok(m) = r.recv_multipart().await {
+      tokio::time::sleep(Duration::from_millis(400)).await;
+      let _ = r.send_multipart(m).await;
+    }
+  });
+  let mut ops: Vec<Op> = vec![];
+  let mut desc = vec![];
+  let mut push = |kind: char, res: Result<(), rzmq::ZmqError>, call: u64| {
+    let ret = tick();
+    desc.push(format!("{} {}", kind, match &res { Ok(()) => "ok".to_string(), Err(e) => util::err_kind(e) }));
+    ops.push(Op { task: 0, kind, call, ret, ok: res.is_ok() });
+  };
+  let c = tick();
+  push('S', req.send(util::msg(b"q1".to_vec(), false)).await, c);
+  let c = tick();
+  push('R', req.recv().await.map(|_| ()), c);
+  let c = tick();
+  push('S', req.send(util::msg(b"q2".to_vec(), false)).await, c);
+  let c = tick();
+  push('S', req.send(util::msg(b"q3".to_vec(), false)).await, c);
+  rep.case(&("late_reply", desc.clone()), true);
+  if !alternation_linearizable(&ops, 'S') {
+    rep.violation("alternation_broken|REQ|recv_timeout_resets_state".to_string(), format!("REQ (one task): {:?} - two sends succeeded with no successful recv in between: a recv() that timed out put the socket back into the ready-to-send state", desc), json!({"history": desc}));
+  }
+  server.abort();
+  let _ = tokio::time::timeout(Duration::from_secs(12), ctx.term()).await;
+}
+
 /// Reply routing: one REP (single task, lock-step) with 3 DEALER clients; REP echoes the request;
 /// every client must only ever receive echoes of its own requests, each exactly once.
 async fn routing_case(rep: &mut Report, rng: &mut Rng, tr: Transport) {
@@ -360,6 +402,7 @@ fn main() {
       let rt = util::runtime(2);
       rt.block_on(gate_case(&mut rep, "REQ"));
       rt.block_on(gate_case(&mut rep, "REP"));
+      rt.block_on(late_reply_case(&mut rep));
       for tr in [Transport::Tcp, Transport::Inproc, Transport::Ipc] {
         rt.block_on(routing_case(&mut rep, &mut rng, tr));
       }
